@@ -409,7 +409,7 @@ theorem c17b_periodPos_of_inDom (c : TestCall) (hd : c.inDom = true) : c17b_peri
     | none => rfl
     | some P =>
       simp only [TestCall.inDom, Bool.and_eq_true] at hd
-      simpa [c17b_periodPos] using hd.1.2.1
+      simpa [c17b_periodPos] using hd.1.2
   | _ => rfl
 
 /-- C17 locality: for every perturbation transform `t` (perturb / perturbAux / perturbPos), every
